@@ -18,6 +18,8 @@ extern int g_no_error;
 	 (((t)->kind == TYPELONG || (t)->kind == TYPELLONG) && (t)->size == 8)))
 /* mkpointertype(): 8 bytes, PROPSCALAR only */
 #define ISPTRT(t) ((t)->kind == TYPEPOINTER && (t)->size == 8 && (t)->prop == PROPSCALAR)
+/* type.c typenullptr (C23 nullptr_t): 8 bytes, PROPSCALAR only; converts like a pointer */
+#define ISNULLPTRT(t) ((t)->kind == TYPENULLPTR && (t)->size == 8 && (t)->prop == PROPSCALAR)
 /* type.c FLTTYPE() objects */
 #define ISFLTT(t) ((t)->prop == FLTPROP && (((t)->kind == TYPEFLOAT && (t)->size == 4) || \
 	((t)->kind == TYPEDOUBLE && (t)->size == 8)))
@@ -28,7 +30,7 @@ extern int g_no_error;
 #define BASICT(T, k, n, s) ((T).kind == (k) && (T).size == (n) && (T).prop == INTPROP && (T).u.basic.issigned == (s))
 
 #define CSIZE(t)  ((unsigned)(t)->size)
-#define CSIGN(t)  ((t)->kind != TYPEPOINTER && (t)->u.basic.issigned)
+#define CSIGN(t)  ((t)->kind != TYPEPOINTER && (t)->kind != TYPENULLPTR && (t)->u.basic.issigned)
 
 /* build a scalar/void type object from harness inputs */
 static void
@@ -38,7 +40,7 @@ lc_mktype(struct type *t, int kind, unsigned size, bool sg)
 	t->size = size;
 	t->align = size;
 	t->u.basic.issigned = 0;
-	if (kind == TYPEPOINTER) {
+	if (kind == TYPEPOINTER || kind == TYPENULLPTR) {
 		t->prop = PROPSCALAR;
 	} else if (kind == TYPEVOID || kind == TYPESTRUCT || kind == TYPEUNION || kind == TYPEARRAY) {
 		t->prop = PROPNONE;
